@@ -200,5 +200,5 @@ def refuse_cases(draw):
 
 
 def subs(tier):
-    return [Sub("continue", continue_cases(), run_continue, quick=320, thorough=3000, needs=("rel", "h5x"), shrink_budget=40),
-            Sub("refuse", refuse_cases(), run_refuse, quick=120, thorough=600, needs=("rel", "h5x"), shrink_budget=20)]
+    return [Sub("continue", continue_cases(), run_continue, quick=320, thorough=10000, needs=("rel", "h5x"), shrink_budget=40),
+            Sub("refuse", refuse_cases(), run_refuse, quick=120, thorough=2400, needs=("rel", "h5x"), shrink_budget=20)]
